@@ -50,7 +50,7 @@ def expectedGuards : List String :=
    "baseObject.export: caches before exporting the children",
    "arrayObject.export: caches before exporting the children"]
 
-theorem guards_ok : guards = expectedGuards := by decide
+theorem guards_ok : guards = expectedGuards := by rfl
 
 /-- decision order of Runtime.toReflectValue that `toReflectOwn` (Bridge.lean) and `expTo` (ExportTo.lean) transcribe -/
 def expectedToReflectOrder : List String :=
@@ -64,6 +64,30 @@ def expectedToReflectOrder : List String :=
 /-- the conditions of wrapReflectFunc's allocation and argument loop that `initIn` / `loopIn` (Gateway.lean) transcribe -/
 def expectedArgLoopConds : List String :=
   ["alloc: l < nargs", "n >= nargs - 1 && typ.IsVariadic()", "n > nargs - 1", "n > nargs - 1"]
+
+/-- typed export dispatch (ExportDispatch.lean): the implementation classes with their own exportToArrayOrSlice /
+    exportToMap (every other class inherits baseObject's, i.e. the generic functions), which methods enter their
+    container into the identity cache (`cachesTyped`: all but setObject.exportToMap — the known finding
+    set-exportToMap-not-cached; flip this line when the patch lands), and the order of the generic tests
+    (iterable first, array-like only for non-callables). -/
+def expectedExportDispatch : List String :=
+  ["exportToArrayOrSlice@arrayBufferObject", "exportToArrayOrSlice@arrayObject", "exportToArrayOrSlice@baseDynamicObject",
+   "exportToArrayOrSlice@baseObject", "exportToArrayOrSlice@dataViewObject", "exportToArrayOrSlice@destructKeyedSource",
+   "exportToArrayOrSlice@setObject", "exportToArrayOrSlice@sparseArrayObject", "exportToArrayOrSlice@typedArrayObject",
+   "exportToMap@baseDynamicObject", "exportToMap@baseObject", "exportToMap@destructKeyedSource", "exportToMap@mapObject",
+   "exportToMap@setObject",
+   "arrayObject.exportToArrayOrSlice: caches",
+   "sparseArrayObject.exportToArrayOrSlice: caches",
+   "setObject.exportToArrayOrSlice: caches",
+   "mapObject.exportToMap: caches",
+   "MISSING setObject.exportToMap: caches",
+   "genericExportToArrayOrSlice: caches",
+   "genericExportToMap: caches",
+   "genericExportToArrayOrSlice: array-like only for non-callables",
+   "arrayObject.exportToArrayOrSlice: generic path when Symbol.iterator is overridden",
+   "genericExportToArrayOrSlice: iterable test first"]
+
+theorem export_dispatch_ok : exportDispatch = expectedExportDispatch := by rfl
 
 theorem toReflect_order_ok : toReflectOrder = expectedToReflectOrder := by decide
 theorem arg_loop_conds_ok : argLoopConds = expectedArgLoopConds := by decide
